@@ -277,6 +277,15 @@ class RawAnalysis:
 
         def check_uses(node, st: dict):
             for x in subnodes(cfg, node):
+                if isinstance(x, ast.AugAssign) and isinstance(x.target, ast.Name) and x.target.id in st:
+                    # `start += 1`: the target is read (a Store context hides the read) -- arithmetic on the raw value
+                    self.n_uses += 1
+                    lv = 'raw index' if st[x.target.id] == RAW else 'range-checked but possibly negative index'
+                    self.ctx.check(self.rid, False, fi.module, fi.qualname, f'{x.target.id} in {norm(x, 90)}',
+                                   f'{lv} `{x.target.id}` used in augmented arithmetic before it was rebound from fixup_slice_indices / '
+                                   f'fixup_one_index / _validate_* (a negative index or the \'end\' marker is shifted like a position)', x.lineno,
+                                   sample={'function': fi.key, 'use': norm(x, 90)})
+                    continue
                 if not (isinstance(x, ast.Name) and isinstance(x.ctx, ast.Load) and x.id in st):
                     continue
                 level = st[x.id]
